@@ -1,4 +1,4 @@
 import Arc.Base.Proto
 import Arc.Model.C22.Wire
 /-! Model driver for C23 — same FSM model and line protocol as C22. -/
-def main : IO Unit := Arc.Proto.run Arc.C22.Wire.step Arc.C22.State.empty
+def main : IO Unit := Arc.Proto.run Arc.C22.Wire.step Arc.C22.Wire.DS.init
